@@ -111,6 +111,14 @@ def main():
       continue
     seen.add(k)
     print('KNOWN-FINDING: property=%s %s [%s]' % (prop, hit.get('what'), k))
+  if out.class_hits:
+    import json as _json
+    with open(os.path.join(env.VERIF, 'known_findings.json')) as f:
+      _kf = dict((e.get('key'), e) for e in _json.load(f).get('findings', []) if e.get('property') == prop)
+    for k in sorted(out.class_hits):
+      if k not in seen:
+        seen.add(k)
+        print('KNOWN-FINDING: property=%s %s [%s; %d paths]' % (prop, (_kf.get(k) or {}).get('what', k), k, out.class_hits[k]))
   rc = 0
   for i, v in enumerate(out.violations):
     path = os.path.join(env.VERIF, 'replays', '%s-%s-%d.json' % (prop, v['cond'], i))
